@@ -227,8 +227,12 @@ def one_case(ctx, cid, rng, idx):
                         f"column {col} differs from input", lambda: {"got": got[:30], "want": want[:30]})
                 declared = (K["cdt"] if col == "count" else K["extra_dt"][col])
                 default = "int32" if col == "count" else "float64"
-                c.check(str(pt[col].dtype) == (declared or default), "pixel-dtype-not-as-declared",
-                        f"column {col} stored as {pt[col].dtype}, declared {declared or default}")
+                if declared:
+                    c.check(str(pt[col].dtype) == declared, "pixel-dtype-not-as-declared",
+                            f"column {col} stored as {pt[col].dtype}, declared {declared}")
+                else:       # no dtype declared: only the kind of the documented default is required
+                    c.check(pt[col].dtype.kind in ("iu" if col == "count" else "f"), "pixel-dtype-kind-unexpected",
+                            f"column {col} stored as {pt[col].dtype} (documented default {default})")
                 # full matrix views
                 D = model.dense(src, n, symm)
                 m = clr.matrix(balance=False, field=col)[:, :]
